@@ -29,7 +29,7 @@ def features(prog):
     for q in nodes:
         if q[0] == "swv" and q[4] is not None and any(r[0] == "swv" and r[4] is not None for r in progs.all_nodes(q)[1:]):
             nested = True
-    return {"nested_swv_reduction": nested,
+    return {"nested_swv_reduction": nested, "has_broadcast_to": any(q[0] == "broadcast_to" for q in nodes),
             "nonpointwise_map_blocks": any(q[0] == "map_blocks" and q[1] in ("reverse", "plus_blocksum") for q in nodes)}
 
 
@@ -132,7 +132,7 @@ def run(chk: Check):
     chk.run_proofs()
     import c01
     S = slice
-    corpus = [c for c in c01.CORPUS if c[0] in ("F2", "F11a", "F11b", "F17", "F18", "F20")]
+    corpus = [c for c in c01.CORPUS if c[0] in ("F2", "F11a", "F11b", "F17", "F18", "F20", "F20w")]
     corpus.append(("F24", ("broadcast_to", ("flip", ("diff", ("src", 0), 0), 0), (3, 5)), [(np.arange(6, dtype="int64"), ((2, 4),))]))
     for tag, prog, sources in corpus:
         run_program(chk, da, prog, sources, progs.eval_np(prog, sources))
